@@ -134,7 +134,21 @@ def shortest(t, v):
     return v
 
 
+MAX_CASE = 64000
+
+
 def gen_case(rng, depth, nops):
+    """histories are bounded in size (the JSON of type, value and operations): a generated object of
+    hundreds of kilobytes re-read after each of 20 steps is a 15 MB literal that Coq does not evaluate within
+    the time limit (seen once at the thorough tier); such a draw is discarded and drawn again, which leaves
+    the stream of all other cases as it was"""
+    while True:
+        c = _gen_case(rng, depth, nops)
+        if len(json.dumps(c)) <= MAX_CASE:
+            return c
+
+
+def _gen_case(rng, depth, nops):
     t = G.gen_type(rng, rng.randint(1, depth))
     while t["k"] == "string":
         t = G.gen_type(rng, rng.randint(1, depth))
@@ -555,7 +569,7 @@ def run(ctx):
         rc, out = res["cases_%s_%d" % (pid, j // SH)]
         pairs = parse_pairs(out) if rc == 0 else None
         if pairs is None:
-            broken = out[-1500:]; continue
+            broken = "cases_%s_%d: coqc rc=%s (124 = time limit) %s" % (pid, j // SH, rc, out[-1500:]); continue
         for a, b in pairs:
             coq_fail[idx[j + a]] = b
     bysig = {}
